@@ -16,6 +16,11 @@ def main():
 
     spec = json.load(open(sys.argv[1]))
     plan = json.load(open(sys.argv[2]))
+    rs_ = spec["options"].get("random_seed")
+    if rs_ == "float3":
+        spec["options"]["random_seed"] = 3.0
+    elif rs_ == "npint7":
+        spec["options"]["random_seed"] = np.int64(7)
 
     def unrelated(seed, D, run=True, noisy=False):
         rs = np.random.RandomState(seed)
